@@ -320,6 +320,54 @@ func (w *world) cellCalls(chain []winSpec) {
 			}
 		}
 	}
+	// --- SetCell at every coordinate / Clear / Fill over the same background of wide glyphs: a glyph that starts outside
+	// the clip rectangle stays what it was, also when the window's edge cuts it in half and its other half is overwritten
+	if len(chain) <= 2 {
+		for align := 0; align < 2; align++ {
+			for fam := 0; fam < 3; fam++ {
+				w.resetScreen()
+				root := w.s.Vx.Window()
+				var leads [][2]int
+				for y := 0; y < scrH; y++ {
+					for x := align; x+1 < scrW; x += 2 {
+						root.SetCell(x, y, vaxis.Cell{Character: vaxis.Character{Grapheme: "世", Width: 2}})
+						leads = append(leads, [2]int{x, y})
+					}
+				}
+				w.s.Vx.Render()
+				win, _, _, clip, _ = w.build(chain)
+				name := "SetCell"
+				switch fam {
+				case 0:
+					for rr := rMin; rr <= rMax; rr++ {
+						for cc := cMin; cc <= cMax; cc++ {
+							win.SetCell(cc, rr, vaxis.Cell{Character: vaxis.Character{Grapheme: "x", Width: 1}})
+						}
+					}
+				case 1:
+					name = "Clear"
+					win.Clear()
+				case 2:
+					name = "Fill"
+					win.Fill(vaxis.Cell{Character: vaxis.Character{Grapheme: "f", Width: 1}})
+				}
+				w.s.Vx.Render()
+				r.Count("renders", 2)
+				g = w.grid()
+				w.dirty = true
+				for _, l := range leads {
+					x, y := l[0], l[1]
+					if clip.has(x, y) {
+						continue
+					}
+					if c := g[y][x]; c.Text != "世" || c.Width != 2 {
+						bad(name, "wide-background|escaped", fmt.Sprintf("%s on the window changed screen cell (%d,%d), where a wide glyph starts outside the clip rectangle %v: it shows %q (width %d)", name, x, y, clip, c.Text, c.Width))
+						return
+					}
+				}
+			}
+		}
+	}
 	// --- SetCell with a wide cell (explicit and auto-measured width) at every coordinate, one at a time
 	// the third one is four columns wide on this terminal (an emoji with a skin-tone modifier, measured rune by
 	// rune): "wide" does not mean two columns
@@ -744,7 +792,7 @@ func main() {
 	n := r.Get("renders")
 	r.Finish(explore.Coverage{
 		States: -1, Transitions: n, Traces: n, Evaluations: n,
-		Rule:       "window chains on a 4x3 screen: depth 1 with offsets {-2,-1,0,1,3,5}^2 x sizes {-1,0,1,2,4,9}^2, depth 2 with {-1,0,1,3}^2 x {-1,1,2,9}^2 per level, depth 3 with {-1,0,1}^2 x {-1,2,9}^2 per level, each level built by New or as a struct literal; per chain: SetCell and SetStyle at every coordinate of [-2,6]x[-2,5] (each with its own marker), SetStyle also over a background of wide glyphs in both alignments (depth <= 2), Fill, Clear; text helpers Print/Wrap/PrintTruncate/Println (rows -1..4) with every string of <= n symbols over {a,世,e+U+0301,SP,TAB,LF} on depth-1 and depth-2 chains, each text of two or more symbols also as one segment per symbol; all observed through the reference terminal after Render against a marker-filled screen; distinct = (chain, call family) cases that passed",
+		Rule:       "window chains on a 4x3 screen: depth 1 with offsets {-2,-1,0,1,3,5}^2 x sizes {-1,0,1,2,4,9}^2, depth 2 with {-1,0,1,3}^2 x {-1,1,2,9}^2 per level, depth 3 with {-1,0,1}^2 x {-1,2,9}^2 per level, each level built by New or as a struct literal; per chain: SetCell and SetStyle at every coordinate of [-2,6]x[-2,5] (each with its own marker), SetStyle also over a background of wide glyphs in both alignments (depth <= 2), Fill, Clear, and SetCell / Clear / Fill over that background (a glyph that starts outside the clip stays); text helpers Print/Wrap/PrintTruncate/Println (rows -1..4) with every string of <= n symbols over {a,世,e+U+0301,SP,TAB,LF} on depth-1 and depth-2 chains, each text of two or more symbols also as one segment per symbol; all observed through the reference terminal after Render against a marker-filled screen; distinct = (chain, call family) cases that passed",
 		Exhaustive: true,
 		Bounds:     map[string]any{"screen": "4x3", "max_string_len": r.Pick(3, 4)},
 		Assumptions: []string{"the clip rectangle is the intersection of the rectangles given by each window's own Column/Row/Width/Height fields (after New's clamping) and the screen",
